@@ -129,6 +129,8 @@ def build_and_audit(prop_files: list[str], leanchecker: bool = False) -> ProofSt
         rc, log = run(["lake", "build", "htdriver"], cwd=LEAN)
         st.build_log += log[-4000:]
         st.driver_ok = rc == 0 and os.path.exists(DRIVER)
+        if st.driver_ok:
+            snapshot_driver()
         if not st.driver_ok:
             st.failed["htdriver"] = log[-3000:]
         for rel in prop_files:
@@ -215,9 +217,30 @@ def failing_theorems(rel: str, log: str) -> dict[str, str]:
     return out
 
 
+_DRIVER_SNAPSHOT = None
+
+
+def snapshot_driver():
+    """Private copy of the driver just built (taken under the build lock): a concurrent run against another tree
+    (VERIF_REPO) regenerates the tables and relinks the shared binary."""
+    global _DRIVER_SNAPSHOT
+    import atexit
+    import shutil
+    import tempfile
+    if _DRIVER_SNAPSHOT is None:
+        d = tempfile.mkdtemp(prefix="htdriver-", dir=os.path.join(LEAN, ".lake"))
+        atexit.register(shutil.rmtree, d, True)
+        _DRIVER_SNAPSHOT = os.path.join(d, "htdriver")
+    shutil.copy2(DRIVER, _DRIVER_SNAPSHOT)
+
+
+def driver_path() -> str:
+    return _DRIVER_SNAPSHOT if _DRIVER_SNAPSHOT and os.path.exists(_DRIVER_SNAPSHOT) else DRIVER
+
+
 class Driver:
     def __init__(self):
-        if not os.path.exists(DRIVER):
+        if not os.path.exists(driver_path()):
             raise Infra("driver executable missing")
 
     def run(self, lines: list[str]) -> list[str]:
@@ -237,7 +260,7 @@ class Driver:
 
     def _run1(self, lines: list[str]) -> list[str]:
         inp = "".join(f"c{i} {l}\n" for i, l in enumerate(lines))
-        p = subprocess.run([DRIVER], input=inp, capture_output=True, text=True, timeout=3600)
+        p = subprocess.run([driver_path()], input=inp, capture_output=True, text=True, timeout=3600)
         if p.returncode != 0:
             raise Infra(f"driver crashed rc={p.returncode}: {p.stderr[-2000:]}")
         outs = p.stdout.split("\n")
